@@ -52,18 +52,50 @@ theorem eol_exact (q : Nat) (h0 : inp[q]? = some '\n') (h1 : inp[q + 1]? ≠ som
   refine ⟨_, lim_ref lk_eol (lim_seq (limS_cons_ok hnl (limS_cons_ok (by simpa using hstar) limS_nil))), ?_⟩
   simp [Tree.stop]
 
+/-- `k` newlines starting at `q`, then something else (or the end of the text) -/
+def NlRun (inp : Array Char) : Nat → Nat → Prop
+  | q, 0 => inp[q]? ≠ some '\n'
+  | q, k + 1 => inp[q]? = some '\n' ∧ NlRun inp (q + 1) k
+
+theorem empty_lines_loop : ∀ (k q s : Nat) (acc : List Tree), NlRun inp q k →
+    ∃ out, LimR aknExec inp (.ref "empty_line") s q acc 0 (.ok (.node s (q + k) [] [] out))
+  | 0, q, s, acc, h => by
+    have hnot : litMatch inp q ['\n'] = false := by
+      simp only [litMatch, Bool.and_true]
+      cases hc : inp[q]? with
+      | none => rfl
+      | some c => simp; intro e; exact h (by rw [hc, e])
+    exact ⟨acc.reverse, by simpa using limR_stop (s := s) (acc := acc) (lim_ref lk_empty_line (lim_ref lk_newline (lim_lit_fail hnot))) (Nat.zero_le _)⟩
+  | k + 1, q, s, acc, h => by
+    have hnl : Lim aknExec inp (.ref "empty_line") q (.ok (Tree.leaf q (q + 1))) :=
+      lim_ref lk_empty_line (lim_ref lk_newline (lim_lit_ok (by simp [litMatch, h.1])))
+    obtain ⟨out, hout⟩ := empty_lines_loop k (q + 1) s (Tree.leaf q (q + 1) :: acc) h.2
+    refine ⟨out, limR_step hnl (by simp) ?_⟩
+    have : q + 1 + k = q + (k + 1) := by omega
+    simpa [this] using hout
+
+/-- `eol` at the first of `k + 1` newlines consumes them all -/
+theorem eol_run (q k : Nat) (h : NlRun inp q (k + 1)) :
+    ∃ t, Lim aknExec inp (.ref "eol") q (.ok t) ∧ t.stop = q + (k + 1) := by
+  have hnl : Lim aknExec inp (.ref "newline") q (.ok (Tree.leaf q (q + 1))) :=
+    lim_ref lk_newline (lim_lit_ok (by simp [litMatch, h.1]))
+  obtain ⟨out, hout⟩ := empty_lines_loop k (q + 1) (q + 1) [] h.2
+  have hstar : Lim aknExec inp (.star (.ref "empty_line")) (q + 1) (.ok (.node (q + 1) (q + 1 + k) [] [] out)) := lim_star hout
+  refine ⟨_, lim_ref lk_eol (lim_seq (limS_cons_ok hnl (limS_cons_ok (by simpa using hstar) limS_nil))), ?_⟩
+  simp [Tree.stop]; omega
+
 theorem lim_inline_plain (p : Nat) (c : Char) (r : List Char) (h : AtPlain inp p (c :: r)) :
     Lim aknExec inp (.ref "inline") p (.ok (plainNode p (p + (c :: r).length))) :=
   ⟨6, fun n hn => by
     obtain ⟨m, rfl⟩ : ∃ m, n = m + 6 := ⟨n - 6, by omega⟩
     exact inline_reads_plain inp p c r h m⟩
 
-/-- `line` on a plain line, with the exact end offset -/
-theorem line_exact (p : Nat) (c : Char) (r : List Char) (h : AtPlain inp p (c :: r)) (hc : c ≠ Char.ofNat 15)
-    (hn : inp[p + (c :: r).length + 1]? ≠ some '\n') :
-    ∃ t, Lim aknExec inp (.ref "line") p (.ok t) ∧ t.stop = p + (c :: r).length + 1 := by
+/-- `line` on a plain line followed by `k + 1` newlines (the line's own and `k` blank lines) -/
+theorem line_run (p : Nat) (c : Char) (r : List Char) (h : AtPlain inp p (c :: r)) (hc : c ≠ Char.ofNat 15)
+    (k : Nat) (hn : NlRun inp (p + (c :: r).length) (k + 1)) :
+    ∃ t, Lim aknExec inp (.ref "line") p (.ok t) ∧ t.stop = p + (c :: r).length + (k + 1) := by
   have hend := atPlain_end inp (c :: r) p h
-  obtain ⟨te, hte, hts⟩ := eol_exact (p + (c :: r).length) hend hn
+  obtain ⟨te, hte, hts⟩ := eol_run (p + (c :: r).length) k hn
   have hded : Lim aknExec inp (.notP (.ref "dedent")) p (.ok (Tree.leaf p p)) := by
     refine lim_not_fail (lim_ref lk_dedent (lim_seq (limS_cons_fail (lim_lit_fail ?_))))
     have : (some c == some (Char.ofNat 15)) = false := by simpa using hc
@@ -81,6 +113,12 @@ theorem line_exact (p : Nat) (c : Char) (r : List Char) (h : AtPlain inp p (c ::
   | node a b c' d e' =>
     simp only [Tree.stop] at hts
     simp [Tree.stop, Tree.addType, hts]
+
+/-- `line` on a plain line, with the exact end offset (a single newline) -/
+theorem line_exact (p : Nat) (c : Char) (r : List Char) (h : AtPlain inp p (c :: r)) (hc : c ≠ Char.ofNat 15)
+    (hn : inp[p + (c :: r).length + 1]? ≠ some '\n') :
+    ∃ t, Lim aknExec inp (.ref "line") p (.ok t) ∧ t.stop = p + (c :: r).length + 1 :=
+  line_run p c r h hc 0 ⟨atPlain_end inp (c :: r) p h, hn⟩
 
 /-! ## one line at body level -/
 
@@ -112,11 +150,11 @@ def bodyItem : PExp :=
   .seq (.cons [] (.notP (.ref "conclusions_marker")) (.cons [] (.notP (.ref "attachment_marker"))
     (.cons ["hier_block_indent"] (.ref "hier_block_indent") .nil)))
 
-theorem bodyItem_line (p : Nat) (c : Char) (r : List Char) (h : AtPlain inp p (c :: r)) (hs : plainStart c = true)
-    (hn : inp[p + (c :: r).length + 1]? ≠ some '\n') :
-    ∃ t, Lim aknExec inp bodyItem p (.ok t) ∧ t.stop = p + (c :: r).length + 1 := by
+theorem bodyItem_line_run (p : Nat) (c : Char) (r : List Char) (h : AtPlain inp p (c :: r)) (hs : plainStart c = true)
+    (k : Nat) (hn : NlRun inp (p + (c :: r).length) (k + 1)) :
+    ∃ t, Lim aknExec inp bodyItem p (.ok t) ∧ t.stop = p + (c :: r).length + (k + 1) := by
   obtain ⟨hb, _, h14, h15, hr⟩ := plainStart_parts hs
-  obtain ⟨tl, hline, htl⟩ := line_exact p c r h h15 hn
+  obtain ⟨tl, hline, htl⟩ := line_run p c r h h15 k hn
   have hbe := block_rules_follow_line inp p c h.1 hb tl hline "hier_block_element" (by simp [blockLevelRules])
   have hind : Lim aknExec inp (.seq (.cons ["indent"] (.ref "indent")
       (.cons ["content"] (.plus (.ref "hier_block_element")) (.cons ["dedent"] (.ref "dedent") .nil)))) p .fail := by
@@ -132,6 +170,11 @@ theorem bodyItem_line (p : Nat) (c : Char) (r : List Char) (h : AtPlain inp p (c
   | node a b c' d e' =>
     simp only [Tree.stop] at htl
     simp [Tree.stop, htl]
+
+theorem bodyItem_line (p : Nat) (c : Char) (r : List Char) (h : AtPlain inp p (c :: r)) (hs : plainStart c = true)
+    (hn : inp[p + (c :: r).length + 1]? ≠ some '\n') :
+    ∃ t, Lim aknExec inp bodyItem p (.ok t) ∧ t.stop = p + (c :: r).length + 1 :=
+  bodyItem_line_run p c r h hs 0 ⟨atPlain_end inp (c :: r) p h, hn⟩
 
 theorem eof_facts : (["conclusions_marker", "attachment_marker", "hier_block_indent", "conclusions", "attachments", "body_marker",
     "preface", "preamble"].all fun r => !mayStart aknExec 100 (.ref r) none && (aknExec.lookup r).isSome) = true := by
